@@ -237,7 +237,7 @@ def _pi0_props(K):
     from symx import core
     props = []
     for i, p in enumerate(K.pi0s):
-        props.append(("pi0_estimate_%d_strictly_positive" % i, (core._z(p) > 0) if isinstance(p, core.Sym) else z3.BoolVal(p > 0)))
+        props.append(("pi0_estimate_%d_strictly_positive" % i, (core._z(p) > 0) if isinstance(p, core.Sym) else z3.BoolVal(bool(p > 0))))
     return props
 
 
@@ -299,7 +299,25 @@ def sym_qvalues(ctx, cfg):
     finally:
         core.DIV_HOOK[0] = None
     ctx.notes.append(("assumed_nonzero_denominators", assumed[0]))
-    return PathOutcome(_structure(zs, out, lo_only=True, what="q") + _pi0_props(K), inputs, None)
+    props = _structure(zs, out, lo_only=True, what="q") + _pi0_props(K)
+    if alg == "from_counts" and K.pi0s and len(out) == len(zs):
+        # Anchor of a count-based FDR estimate: accepting EVERYTHING is estimated at pi0, the assumed share of
+        # incorrect targets ((#T/#D) * #D/#T = 1). It is observable at the worst-scoring PSM whenever decoys are
+        # nowhere over-represented among the better scores (then the running maximum ends at the anchor).
+        nT, nD = sum(1 for l in labels if l), sum(1 for l in labels if not l)
+        n = len(zs)
+        o = [core._z(x) for x in out.items]
+        conds = [z3.Distinct(zs)] if n > 1 else []
+        for i in range(n):
+            Di = z3.Sum([z3.If(zs[j] >= zs[i], 1, 0) for j in range(n) if not labels[j]]) if nD else z3.IntVal(0)
+            Ti = z3.Sum([z3.If(zs[j] >= zs[i], 1, 0) for j in range(n) if labels[j]])
+            conds.append(nT * Di <= nD * Ti)
+        from fractions import Fraction
+        pi0 = core._z(K.pi0s[0]) if isinstance(K.pi0s[0], core.Sym) else z3.RealVal(Fraction(K.pi0s[0]))  # the float's exact value
+        for i in range(n):
+            worst = z3.And([zs[i] <= zs[j] for j in range(n)])
+            props.append(("accepting_everything_is_estimated_at_pi0[worst=%d]" % i, z3.Implies(z3.And(z3.And(conds), worst), o[i] == pi0)))
+    return PathOutcome(props, inputs, None)
 
 
 CONTRACTS = ["scipy.optimize.nnls -> arbitrary d >= 0 (argument list checked against the installed scipy's signature)",
@@ -497,10 +515,36 @@ def real_qvalues(cfg, inp):
         # PEPs that satisfy C06 themselves: a decreasing function of the score
         call = lambda s, t: Q.qvalues_from_peps(s, t, 1.0 / (1.0 + np.exp(s - 2.0)))
     else:
+        import warnings
+        import mokapot.peps as P
+
         def call(s, t):
             t = t.copy()
             t[np.argmax(s)] = True  # premise of the symbolic harness: the best-scoring PSM is a target
             return Q.qvalues_from_scores(s, t, alg)
+        r = _run(cfg, inp, call, True, "q-value", "q-values %r" % alg)
+        if r.get("violation"):
+            return r
+        # the anchor: accepting everything is estimated at pi0 (or more, after the running maximum) - on data with
+        # twice as many targets as decoys, so that #T/#D and #D/#T differ
+        for s, t, how in _embeddings(inp, False):
+            keep = np.ones(len(s), dtype=bool)
+            keep[np.flatnonzero(~t)[::2]] = False
+            s, t = s[keep], t[keep]
+            t[np.argmax(s)] = True
+            with warnings.catch_warnings():
+                warnings.simplefilter("ignore")
+                try:
+                    q = np.asarray(Q.qvalues_from_scores(s.copy(), t.copy(), alg), dtype=float)
+                    _, td, dd = P.hist_data_from_scores(s, t, density=True)
+                    pi0 = float(P.estimate_pi0_by_slope(td, dd))
+                except BaseException as ex:
+                    return dict(exception=repr(ex), violation="q-values %r on %s (half of the decoys removed) raised %r" % (alg, how, ex))
+            qw = float(q[np.argmin(s)])
+            if qw < pi0 * (1 - 1e-9):
+                return dict(violation="q-values %r on %s with %d targets and %d decoys: accepting every PSM is estimated at FDR %r, below pi0 = %r (the estimate pi0 * #T/#D * D(x)/T(x) equals pi0 at the worst score)"
+                                      % (alg, how, int(t.sum()), int((~t).sum()), qw, pi0))
+        return r
     return _run(cfg, inp, call, True, "q-value", "q-values %r" % alg)
 
 
